@@ -1,4 +1,4 @@
-import WtfModel.Props.C04
+import WtfModel.Props.C04b
 #print axioms Wtf.C04.passes_iff
 #print axioms Wtf.C04.platform
 #print axioms Wtf.C04.pipeline
@@ -12,3 +12,7 @@ import WtfModel.Props.C04
 #print axioms Wtf.C04.table_several
 #print axioms Wtf.C04.table_cross
 #print axioms Wtf.C04.table_pipeline
+#print axioms Wtf.C04.hostOnly_is_default
+#print axioms Wtf.C04.legacy_pipeline_modelled
+#print axioms Wtf.C04.search_with_options_platform
+#print axioms Wtf.C04.search_with_fuzzy_platform
